@@ -23,23 +23,33 @@ Dilate(S, g, n) == {i \in 1..n : \E j \in S : Abs(i - j) <= g}
 (* 1. djs_reject                                                           *)
 (*                                                                         *)
 (* A call is a record                                                      *)
-(*   [n, diff, w, lower, upper, maxdev, inmask, prev, sticky, grow]        *)
+(*   [n, diff, mode, scale, lower, upper, maxdev, inmask, prev, sticky,    *)
+(*    grow]                                                                *)
 (* diff[i]  = data[i] - model[i]                       (Rat)               *)
-(* w[i]     = 1/sigma[i] = sqrt(invvar[i]) >= 0        (Rat)               *)
-(*            so diff[i]*w[i] is the residual "in units of the supplied    *)
-(*            sigma or 1/sqrt(invvar)"; w = 0 is a point of zero weight    *)
+(* mode     = "sigma":  scale[i] = the supplied sigma[i] >= 0              *)
+(*            "weight": scale[i] = sqrt(invvar[i]) >= 0, the unit being    *)
+(*                      1/scale[i]                     (Rat)               *)
+(*            A residual exceeds the lower limit "in units of" u when      *)
+(*            diff < -lower*u (IDL: diff LT -lower*sigma), the upper limit *)
+(*            when diff > upper*u.  With u = sigma that is the test as it  *)
+(*            stands, also for sigma = 0 (an exactly known point: every    *)
+(*            non-zero residual of that sign exceeds the limit, a zero     *)
+(*            residual does not); with u = 1/sqrt(invvar) it is            *)
+(*            diff*sqrt(invvar) < -lower, also for invvar = 0 (a point of  *)
+(*            zero weight: never beyond lower/upper).                      *)
 (* lower, upper, maxdev : <<>> or <<limit>>            (Rat, >= 0)         *)
 (* inmask   = the GOOD points of the input mask                            *)
 (* prev     = the GOOD points of the previous output mask (all points if   *)
 (*            the caller supplies none)                                    *)
 (***************************************************************************)
 RejPts(c) == 1..c.n
-Scaled(c, i) == Mul(c.diff[i], c.w[i])
+Below(c, i, lim) == IF c.mode = "sigma" THEN Lt(c.diff[i], Neg(Mul(lim, c.scale[i])))
+                    ELSE Lt(Mul(c.diff[i], c.scale[i]), Neg(lim))
+Above(c, i, lim) == IF c.mode = "sigma" THEN Lt(Mul(lim, c.scale[i]), c.diff[i])
+                    ELSE Lt(lim, Mul(c.diff[i], c.scale[i]))
 
-BeyondLower(c) == IF c.lower = <<>> THEN {}
-                  ELSE {i \in RejPts(c) : Lt(Scaled(c, i), Neg(c.lower[1]))}
-BeyondUpper(c) == IF c.upper = <<>> THEN {}
-                  ELSE {i \in RejPts(c) : Lt(c.upper[1], Scaled(c, i))}
+BeyondLower(c) == IF c.lower = <<>> THEN {} ELSE {i \in RejPts(c) : Below(c, i, c.lower[1])}
+BeyondUpper(c) == IF c.upper = <<>> THEN {} ELSE {i \in RejPts(c) : Above(c, i, c.upper[1])}
 BeyondDev(c)   == IF c.maxdev = <<>> THEN {}
                   ELSE {i \in RejPts(c) : Lt(c.maxdev[1], RAbs(c.diff[i]))}
 ResidualBad(c) == BeyondLower(c) \cup BeyondUpper(c) \cup BeyondDev(c)
@@ -89,7 +99,18 @@ RejGrowWidth(c) == \A i \in RejectedMin(c) \ Excluded(c) :
 RejSecondPassDone(c) == LET d == [c EXCEPT !.prev = GoodMax(c)]
                         IN GoodMax(d) = GoodMax(c) /\ ExpectedReject(d).done
 RejLimitsAbsentNoResidual(c) == (c.lower = <<>> /\ c.upper = <<>> /\ c.maxdev = <<>>) => ResidualBad(c) = {}
-RejZeroWeightOnlyDev(c) == \A i \in RejPts(c) : c.w[i] = Zero => (i \in ResidualBad(c) <=> i \in BeyondDev(c))
+RejZeroWeightOnlyDev(c) == c.mode = "weight" =>
+   \A i \in RejPts(c) : c.scale[i] = Zero => (i \in ResidualBad(c) <=> i \in BeyondDev(c))
+(* sigma = 0: beyond lower iff the residual is negative, beyond upper iff it is positive *)
+RejZeroSigmaSign(c) == c.mode = "sigma" =>
+   \A i \in RejPts(c) : c.scale[i] = Zero =>
+       /\ (i \in BeyondLower(c) <=> (c.lower # <<>> /\ Lt(c.diff[i], Zero)))
+       /\ (i \in BeyondUpper(c) <=> (c.upper # <<>> /\ Lt(Zero, c.diff[i])))
+(* sigma and 1/sqrt(invvar) are the same unit: with every scale positive the two modes agree *)
+RejModesAgree(c) == (\A i \in RejPts(c) : Lt(Zero, c.scale[i])) =>
+   LET d == [c EXCEPT !.mode = IF c.mode = "sigma" THEN "weight" ELSE "sigma",
+                      !.scale = [i \in RejPts(c) |-> Inv(c.scale[i])]]
+   IN BeyondLower(d) = BeyondLower(c) /\ BeyondUpper(d) = BeyondUpper(c)
 
 (***************************************************************************)
 (* 2. djs_maskinterp                                                       *)
@@ -266,8 +287,8 @@ SkyBits(tbl) == {tbl.BADSKYCHI, tbl.REDMONSTER}
 SkyFlagged(flags, tbl, r) == {p \in Idx(flags[r]) : flags[r][p] \cap SkyBits(tbl) # {}}
 SkyZeroed(flags, tbl, ngrow, r) == Dilate(SkyFlagged(flags, tbl, r), ngrow, Len(flags[r]))
 SkyMask(ivar, flags, ngrow, tbl) ==
-  [r \in Idx(ivar) |-> [p \in Idx(ivar[r]) |->
-      IF p \in SkyZeroed(flags, tbl, ngrow, r) THEN 0 ELSE ivar[r][p]]]
+  [r \in Idx(ivar) |-> LET z == SkyZeroed(flags, tbl, ngrow, r)
+                        IN [p \in Idx(ivar[r]) |-> IF p \in z THEN 0 ELSE ivar[r][p]]]
 
 (* laws *)
 SkyNoGrowExact(ivar, flags, tbl) == \A r \in Idx(ivar) : SkyZeroed(flags, tbl, 0, r) = SkyFlagged(flags, tbl, r)
